@@ -11,11 +11,18 @@ from . import _cls
 LEVEL = "proof"
 K = "pregex.core.classes.__Class."
 INTERVAL = [K + "__or.<locals>.reduce_ranges", K + "__or.<locals>.reduce_chars", K + "__sub.<locals>.subtract_ranges"]
+# G9b: the operator methods relative to the assumed core operations: which operands reach __or / __sub, in which order, after
+# the documented conversion of single characters / tokens to AnyFrom(c); the documented exception otherwise; ~ flips the flag
+# and re-brackets the verbose text
+OPERATORS = [K + m for m in ("__or__", "__ror__", "__sub__", "__rsub__", "__invert__")] + ["pregex.core.classes.Any.__invert__"]
 
 
 def run(rep, tier):
     # interval core: VCs with loop invariants over lists-as-maps, all list lengths, all code points
-    vcrun.run_functions(rep, INTERVAL, tier)
+    vcrun.run_functions(rep, INTERVAL + OPERATORS, tier)
+    rep.assumptions.append("G9b is relative to the assumed contracts of the core operations __or / __sub (same-kind operands give a "
+                           "class with that negation flag; their character sets: interval core G8 + bounded stand-in B3) and to "
+                           "the class invariant that a Token-typed text stands for one character (B1)")
     for q in INTERVAL:
         vcrun.run_bounded(rep, q, tier, "run-time evaluation of the proved contract on the real nested function (cross-check; not "
                                        "counted as proof)", limit=1500 if tier == "quick" else 40000)
